@@ -16,6 +16,8 @@
 EXTENDS Geometry
 CONSTANTS Sizes, Strides, CropSizes
 Scales == {<<1, 2>>, <<3, 4>>, <<1, 1>>, <<3, 2>>}
+\* <<crop height, crop width>>: square sizes and the two non-square pairs (seed C04_r6: height/width transposed)
+CropPairs == {<<a, a>> : a \in CropSizes} \cup {<<16, 32>>, <<32, 16>>}
 MaxModes == {"none", "equal", "sq64", "big"}
 MaxOf(mode, h, w) == CASE mode = "none" -> <<0, 0>> [] mode = "equal" -> <<h, w>>
                        [] mode = "sq64" -> <<64, 64>> [] mode = "big" -> <<80, 96>>
@@ -23,12 +25,12 @@ Labels(h, w) == << <<0, 0, 1, 1, 1>>, <<(w - 1) * Q, 0, 1, 1, 2>>, <<0, (h - 1) 
                    <<(w - 1) * Q, (h - 1) * Q, 1, 1, 4>>, <<(w - 1) * (Q \div 2), (h - 1) * (Q \div 2), 1, 1, 5>> >>
 Base(ds, h, w, mode, s, m, cr, a) ==
     [pipe |-> AllStages(ds), ds |-> ds, h |-> h, w |-> w, maxH |-> MaxOf(mode, h, w)[1], maxW |-> MaxOf(mode, h, w)[2],
-     sn |-> s[1], sd |-> s[2], m |-> m, crH |-> cr, crW |-> cr, anchor |-> a, inst |-> 1,
+     sn |-> s[1], sd |-> s[2], m |-> m, crH |-> cr[1], crW |-> cr[2], anchor |-> a, inst |-> 1,
      augI |-> 1, augG |-> 1, track |-> "keypoints", kp0 |-> Labels(h, w)]
-Full == {Base(ds, h, w, mode, s, m, 16, 0) : ds \in {"fn_full"}, h \in Sizes, w \in Sizes, mode \in MaxModes, s \in Scales, m \in Strides}
-DPFull == {Base("dp_full", h, w, mode, s, m, 16, 0) : h \in Sizes, w \in Sizes, mode \in {"none", "equal", "big"}, s \in Scales, m \in Strides}
+Full == {Base(ds, h, w, mode, s, m, <<16, 16>>, 0) : ds \in {"fn_full"}, h \in Sizes, w \in Sizes, mode \in MaxModes, s \in Scales, m \in Strides}
+DPFull == {Base("dp_full", h, w, mode, s, m, <<16, 16>>, 0) : h \in Sizes, w \in Sizes, mode \in {"none", "equal", "big"}, s \in Scales, m \in Strides}
 Cropped == {Base(ds, h, w, mode, s, m, cr, a) : ds \in {"fn_crop", "fn_topdown"}, h \in Sizes, w \in Sizes, mode \in MaxModes,
-                                                  s \in Scales, m \in Strides, cr \in CropSizes, a \in {0, 1, 4, 5}}
+                                                  s \in Scales, m \in Strides, cr \in CropPairs, a \in {0, 1, 4, 5}}
 Configs == Full \cup DPFull \cup Cropped
 
 \* exact lattice-preserving augmentations about the image centre
